@@ -324,6 +324,20 @@ func c10Inputs(c *core.Ctx) []c10Input {
 			}
 		}
 	}
+	// strict prefixes of honest encodings with 65536 (and 65537) minimal entries: a decoder that treats large declared
+	// counts specially still has to notice that entries are missing
+	for _, n := range []int{65536, 65537} {
+		el := make([]byte, 0, 12*n+16)
+		el = append(el, 0xdd, byte(n>>24), byte(n>>16), byte(n>>8), byte(n))
+		for i := 0; i < n; i++ {
+			el = append(el, 0x92, 0xd7, 0x00, 0, 0, 0, byte(i>>8), 0, 0, 0, byte(i), 0xc0)
+		}
+		fw := append([]byte{0x92, 0xa1, 't'}, el...)
+		for _, cut := range []int{5, 6, 11, 16, 17} {
+			ins = append(ins, c10Input{"prefix:entry_list", el[:cut]})
+			ins = append(ins, c10Input{"prefix:forward", fw[:cut+3]})
+		}
+	}
 	// amplifying containers: small well-formed gzip members whose content is thousands of times longer (zeros, or a
 	// long run of one valid entry), bare and as the event stream of a packed message marked compressed=gzip.  Nothing
 	// in the decoders may inflate them on its own account: memory stays proportionate to the bytes given.
@@ -435,6 +449,27 @@ func c10ClientPaths(c *core.Ctx) {
 			}
 		}
 	}
+	// every total length of the public material (salt + server hostname + nonce) across several hash blocks and
+	// buffer sizes: a peer without the key answers with the digest of the public material alone
+	for _, shost := range [][]byte{{}, []byte("evil"), []byte("some.other.host.example")} {
+		for nl := 0; nl <= c.N(600, 4200); nl++ {
+			nonce := bytes.Repeat([]byte{byte(nl)}, nl)
+			helo := mustMarshal(&protocol.Helo{MessageType: "HELO", Options: &protocol.HeloOpts{Nonce: nonce, Auth: []byte{}, Keepalive: true}})
+			seed := int64(nl)*7 + int64(len(shost))
+			salt := make([]byte, 16)
+			rand.New(rand.NewSource(seed)).Read(salt)
+			pub := append(append(append([]byte{}, salt...), shost...), nonce...)
+			pong := mustMarshal(&protocol.Pong{MessageType: "PONG", AuthResult: true, ServerHostname: string(shost), SharedKeyHexDigest: sha512hex(pub)})
+			res := runHandshakeRaw(seed, hsCase{key: []byte("sweep-key"), chost: []byte("client"), shost: shost, nonce: nonce, script: "raw"}, helo, pong)
+			c.Eval()
+			if res.transport || res.class == "panic" {
+				c.Violation("judge-go", "c10-transport-without-handshake", fmt.Sprintf("a peer without the key (digest of salt + hostname + nonce alone; hostname of %d bytes, nonce of %d bytes) ends with result %s, transport phase %v", len(shost), nl, res.class, res.transport),
+					map[string]interface{}{"helo_bytes": hx(helo), "pong_bytes": hx(pong), "salt": hx(salt), "key": hx([]byte("sweep-key"))})
+				break
+			}
+		}
+	}
+	c.Hist("client read path: keyless digest, every nonce length")
 	// acks: arbitrary peer bytes after a send never panic the client
 	cf := ccfg{host: []byte("h"), ack: true, timeout: 50 * time.Millisecond}
 	for i := 0; i < c.N(150, 3000); i++ {
